@@ -142,6 +142,7 @@ type vDriver struct {
 	sawLocal map[string]bool
 	bodyOf   map[string]string // digest -> hex body of the own observation
 	dueMiss  map[string]int    // digest -> consecutive ticks at which a retry was due and did not happen
+	lastObs  *gossipv1.SignedObservation
 }
 
 func vNewDriver(t *testing.T, root context.Context, own *ecdsa.PrivateKey, govChain vaa.ChainID, govAddr vaa.Address, id int) *vDriver {
@@ -253,6 +254,7 @@ drain:
 				nobs++
 				add(outObs(1, x.SignedObservation), "sendobs "+hex.EncodeToString(x.SignedObservation.Hash)[:16])
 				dr.monSendObs(x.SignedObservation)
+				dr.lastObs = x.SignedObservation
 			case *gossipv1.GossipMessage_SignedVaaWithQuorum:
 				add(append([]byte{2}, x.SignedVaaWithQuorum.Vaa...), "sendvaa "+hex.EncodeToString(x.SignedVaaWithQuorum.Vaa)[:24])
 				dr.monPublished(x.SignedVaaWithQuorum.Vaa, "broadcast", op)
@@ -559,6 +561,10 @@ func (dr *vDriver) opMsg(k *common.MessagePublication) bool {
 	}
 	if isGov && (signed || len(st.Outs) > 0) {
 		dr.h.Mon = append(dr.h.Mon, "C02: a chain observation naming the governance emitter was signed")
+	}
+	if signed && dr.lastObs != nil && hex.EncodeToString(dr.lastObs.Hash) != dg {
+		// C04: the VAA (hence the digest) is a function of the message's fields alone, the same on every guardian
+		dr.h.Mon = append(dr.h.Mon, "C04: the digest the node signed for a chain message differs from the digest of the VAA built from the message's fields alone")
 	}
 	if signed {
 		dr.localGS[dg] = gsBefore
